@@ -111,6 +111,7 @@ type inp struct {
 type tcase struct {
 	Pipe []stage `json:"pipe"`
 	Inp  inp     `json:"inp"`
+	Edit string  `json:"edit"`
 }
 
 func pipeline(p []stage) []types.PDFFilter {
@@ -285,26 +286,93 @@ type rec15 struct {
 	Eq    bool    `json:"eq"` // bytes.Equal(decoded, original), filter level
 	Obs   []obs   `json:"obs"`
 	// whole stream objects
-	SdEncOk  bool   `json:"sdEncOk"`
-	SdRawEq  bool   `json:"sdRawEq"` // StreamDict.Encode produced the same bytes as the filter chain
-	SdLenOk  bool   `json:"sdLenOk"` // Length entry and StreamLength = len(Raw)
-	SdDecOk  bool   `json:"sdDecOk"`
-	SdEq     bool   `json:"sdEq"`     // decoded content of a fresh stream object = original
-	SdModOk  bool   `json:"sdModOk"`  // modify -> Encode -> Decode ran without error
-	SdModEq  bool   `json:"sdModEq"`  // ... and returned the modified content
-	SdModNew bool   `json:"sdModNew"` // ... and Raw really was re-encoded (differs or content unchanged)
-	File     string `json:"file"`     // "skip" | "ok" | failure description (write -> read of a PDF file)
-	Err      string `json:"err"`
+	SdEncOk    bool   `json:"sdEncOk"`
+	SdRawEq    bool   `json:"sdRawEq"` // StreamDict.Encode produced the same bytes as the filter chain
+	SdLenOk    bool   `json:"sdLenOk"` // Length entry and StreamLength = len(Raw)
+	SdDecOk    bool   `json:"sdDecOk"`
+	SdEq       bool   `json:"sdEq"`       // decoded content of a fresh stream object = original
+	Edit       string `json:"edit"`       // the edit of the decode - edit - encode step (class Edits of Filter.tla)
+	Mod        []int  `json:"mod"`        // content the Go side expects after the edit (small cases; TLC compares with ApplyEdit)
+	ModDec     []int  `json:"modDec"`     // what the re-encoded stream decodes to (small cases)
+	SdModOk    bool   `json:"sdModOk"`    // edit -> Encode -> Decode ran without error
+	SdModEq    bool   `json:"sdModEq"`    // ... and returned the edited content
+	SdModFresh bool   `json:"sdModFresh"` // ... Raw after re-encoding = Raw of a fresh stream object holding the edited content
+	SdModLen   bool   `json:"sdModLen"`   // ... Length entry and StreamLength = len(Raw)
+	File       string `json:"file"`       // "skip" | "ok" | failure description (write -> read of a PDF file)
+	Err        string `json:"err"`
 }
 
-func modify(x []byte) []byte {
+// editedContent is the content expected after an edit (mirrors ApplyEdit of spec/Filter.tla; TLC compares the two).
+func editedContent(edit string, x []byte) []byte {
 	m := append([]byte{}, x...)
-	for i := range m {
-		if i%3 == 1 {
-			m[i] ^= 0x5a
+	switch edit {
+	case "append":
+		return append(m, 0x00, 0x80, 0xff, byte(len(x)))
+	case "prepend":
+		return append([]byte{37, 0}, m...)
+	case "replace":
+		for i := range m {
+			if (i+1)%3 == 2 {
+				m[i] += 90
+			}
 		}
+		return m
+	case "trunc1":
+		if len(m) > 1 {
+			m = m[:1]
+		}
+		return m
+	case "trunc0slice", "trunc0new":
+		return []byte{}
+	case "nilthen":
+		return append(m, 1)
+	case "grow":
+		for i := 1; i <= 131; i++ {
+			m = append(m, byte(3*i))
+		}
+		return m
 	}
-	return append(m, 0x00, 0x80, 0xff, byte(len(x)))
+	h.Die("unknown edit %q", edit)
+	return nil
+}
+
+// applyEdit performs the edit on a decoded stream object the way the edit's name says.
+func applyEdit(edit string, sd *types.StreamDict, orig []byte) {
+	switch edit {
+	case "append":
+		sd.Content = append(sd.Content, 0x00, 0x80, 0xff, byte(len(orig)))
+	case "prepend":
+		sd.Content = append([]byte{37, 0}, sd.Content...)
+	case "replace":
+		for i := range sd.Content {
+			if (i+1)%3 == 2 {
+				sd.Content[i] += 90
+			}
+		}
+	case "trunc1":
+		if len(sd.Content) > 1 {
+			sd.Content = sd.Content[:1]
+		}
+	case "trunc0slice":
+		sd.Content = sd.Content[:0]
+	case "trunc0new":
+		sd.Content = []byte{}
+	case "nilthen":
+		c := editedContent(edit, orig)
+		sd.Content = nil
+		sd.Content = c
+	case "grow":
+		for i := 1; i <= 131; i++ {
+			sd.Content = append(sd.Content, byte(3*i))
+		}
+	default:
+		h.Die("unknown edit %q", edit)
+	}
+}
+
+func lengthFits(sd *types.StreamDict) bool {
+	l := sd.IntEntry("Length")
+	return l != nil && *l == len(sd.Raw) && sd.StreamLength != nil && *sd.StreamLength == int64(len(sd.Raw))
 }
 
 func newSD(p []stage) *types.StreamDict {
@@ -345,7 +413,7 @@ func runC15(casesPath, outPath string, seed int64, capBytes int, withFile bool) 
 		}
 		n++
 		x0 := expand(c.Inp, seed)
-		r := &rec15{ID: n, Pipe: c.Pipe, Inp: c.Inp, N: len(x0), Obs: []obs{}, Orig: []int{}, Enc: []int{}, Dec: []int{}, File: "skip"}
+		r := &rec15{ID: n, Pipe: c.Pipe, Inp: c.Inp, N: len(x0), Obs: []obs{}, Orig: []int{}, Enc: []int{}, Dec: []int{}, Mod: []int{}, ModDec: []int{}, Edit: c.Edit, File: "skip"}
 		var errs []string
 		// filter level: encode with the last array entry first
 		cur := x0
@@ -401,28 +469,40 @@ func runC15(casesPath, outPath string, seed int64, capBytes int, withFile bool) 
 			r.SdRawEq = r.EncOk && bytes.Equal(sd.Raw, enc)
 			l := sd.IntEntry("Length")
 			r.SdLenOk = l != nil && *l == len(sd.Raw) && sd.StreamLength != nil && *sd.StreamLength == int64(len(sd.Raw))
+			// sd2: the stream object as a reader hands it out (Raw, Length entry and StreamLength present, no Content)
 			sd2 := newSD(c.Pipe)
 			sd2.Raw = append([]byte{}, sd.Raw...)
+			rl := int64(len(sd2.Raw))
+			sd2.StreamLength = &rl
+			sd2.Dict["Length"] = types.Integer(rl)
 			if err := sdDo(sd2.Decode); err != nil {
 				errs = append(errs, "sd.Decode: "+err.Error())
 			} else {
 				r.SdDecOk = true
 				r.SdEq = bytes.Equal(sd2.Content, x0)
-				mod := modify(x0)
-				old := append([]byte{}, sd2.Raw...)
-				sd2.Content = mod
+				mod := editedContent(c.Edit, x0)
+				if r.Small {
+					r.Mod = ints(mod)
+				}
+				applyEdit(c.Edit, sd2, x0)
 				if err := sdDo(sd2.Encode); err != nil {
-					errs = append(errs, "modified sd.Encode: "+err.Error())
+					errs = append(errs, "edited sd.Encode: "+err.Error())
 				} else {
+					fresh := newSD(c.Pipe)
+					fresh.Content = append([]byte{}, mod...)
+					ferr := sdDo(fresh.Encode)
 					sd3 := newSD(c.Pipe)
 					sd3.Raw = append([]byte{}, sd2.Raw...)
 					if err := sdDo(sd3.Decode); err != nil {
-						errs = append(errs, "modified sd.Decode: "+err.Error())
+						errs = append(errs, "edited sd.Decode: "+err.Error())
 					} else {
 						r.SdModOk = true
 						r.SdModEq = bytes.Equal(sd3.Content, mod)
-						l := sd2.IntEntry("Length")
-						r.SdModNew = !bytes.Equal(old, sd2.Raw) && l != nil && *l == len(sd2.Raw)
+						r.SdModFresh = ferr == nil && bytes.Equal(fresh.Raw, sd2.Raw)
+						r.SdModLen = lengthFits(sd2)
+						if r.Small {
+							r.ModDec = ints(sd3.Content)
+						}
 					}
 				}
 			}
@@ -571,7 +651,7 @@ func fileRoundTrip(batch []*rec15, data [][]byte) {
 			r.File = "content after read differs from the original"
 			continue
 		}
-		sd.Content = modify(data[i])
+		applyEdit(r.Edit, sd, data[i])
 		if err := sdDo(sd.Encode); err != nil {
 			r.File = "re-encode: " + err.Error()
 			continue
@@ -625,8 +705,8 @@ func fileRoundTrip(batch []*rec15, data [][]byte) {
 			r.File = "decode after write: " + err.Error()
 			continue
 		}
-		if !bytes.Equal(sd.Content, modify(data[i])) {
-			r.File = "content after write differs from the modified content"
+		if !bytes.Equal(sd.Content, editedContent(r.Edit, data[i])) {
+			r.File = "content after write differs from the edited content (edit " + r.Edit + ")"
 			continue
 		}
 		r.File = "ok"
